@@ -329,6 +329,66 @@ def startup_phase(ctx):
                           {"handler": "startup", "seed": t["seed"], "steps": t["steps"][:l], "clause": why, "origin": "start-up history"})
 
 
+LOOPCFG = """SPECIFICATION Spec
+CONSTANTS
+  Lose = {lose}
+  Swap = {swap}
+  Dup = {dup}
+{prop}INVARIANT CompletesAtMostOnce
+INVARIANT CompletionMeansIdentified
+INVARIANT StepsInRange
+ACTION_CONSTRAINT Report
+CHECK_DEADLOCK FALSE
+"""
+
+
+def rdacloop_phase(ctx):
+    """growth beyond the statement (spec/MC_RDACLoop.tla): the RDAC handler in a closed loop with a repeater that answers as
+    expected, over a network that loses, swaps or duplicates responses.  TLC proves completion on the clean network and lists
+    every maximal behaviour of the faulty one; each is replayed on the real handler (per-step verdicts by Trace_RDAC - these
+    are ordinary datagram histories of C18 - and the final step / completions compared with the model)."""
+    with open(os.path.join(ctx.rundir, "MC_RDACLoop_clean.cfg"), "w") as f:
+        f.write(LOOPCFG.format(lose=0, swap=0, dup=0, prop="PROPERTY EventuallyIdentified\n"))
+    res = core.run_tlc(ctx, "MC_RDACLoop", "MC_RDACLoop_clean.cfg", timeout=600, workers=1)
+    if res.violated:
+        ctx.outside(f"RDAC closed loop on a clean network: the design model violates {res.violated}")
+    b = (1, 1, 1) if ctx.quick else (2, 2, 2)
+    with open(os.path.join(ctx.rundir, "MC_RDACLoop_faulty.cfg"), "w") as f:
+        f.write(LOOPCFG.format(lose=b[0], swap=b[1], dup=b[2], prop=""))
+    res = core.run_tlc(ctx, "MC_RDACLoop", "MC_RDACLoop_faulty.cfg", timeout=1800, workers=1)
+    if res.violated:
+        ctx.outside(f"RDAC closed loop on a faulty network: the design model violates {res.violated}")
+    runs, seen = [], set()
+    for v in core.parse_printed_json(res, tag="LOOP") :
+        k = core.digest(v["hist"])
+        if k not in seen:
+            seen.add(k)
+            runs.append(v)
+    if len(runs) < 20:
+        raise core.MachineryError(f"closed-loop model produced only {len(runs)} behaviours")
+    addr = ("ip1", RDAC_PORT)
+    jobs = [(ctx.seed * 77 + i, [(addr, d) for d in v["hist"]]) for i, v in enumerate(runs)]
+    with Pool(core.NCPU) as pool:
+        traces = pool.map(rdac_run, jobs, chunksize=16)
+    stalled = 0
+    for t, j, v in zip(traces, jobs, runs):
+        t["seed"], t["steps"] = j
+        last = t["ev"][-1]["out"]
+        ctx.count("loop" + core.digest(v["hist"]), len(v["hist"]))
+        if last["st"].get("ip1", 0) != v["step"] or sum(e["out"]["done"] for e in t["ev"]) != v["done"]:
+            ctx.model_drift(f"RDAC closed loop: after {len(v['hist'])} datagrams the handler is at step {last['st'].get('ip1', 0)}, the model at {v['step']}")
+        if v["step"] != 14:
+            stalled += 1
+    ctx.note("rdac_closed_loop", {"behaviours": len(runs), "stalled": stalled, "budgets_lose_swap_dup": list(b)})
+    if stalled:
+        ctx.outside("RDAC identification has no timer and never repeats a request: with one lost, swapped or duplicated response the closed loop "
+                    f"(handler + a repeater answering as expected) ends before step 14 with nothing in flight in {stalled} of {len(runs)} maximal "
+                    "behaviours of the model, and the real handler, fed the same datagrams, is in the same step (it owns no timer); only the repeater's "
+                    "one-octet reset restarts it")
+    for part in core.chunks(traces, 300):
+        judge(ctx, part, ctx.validate_traces("Trace_RDAC", "Trace_RDAC.cfg", part), "closed-loop behaviour", "rdac")
+
+
 # ------------------------------------------------------------------------------ run
 
 P2PCFG = """SPECIFICATION Spec
@@ -497,6 +557,7 @@ def run(ctx):
     for part in core.chunks(hist, 300):
         judge(ctx, part, ctx.validate_traces("Trace_RDAC", "Trace_RDAC.cfg", part), "random history", "rdac")
     startup_phase(ctx)
+    rdacloop_phase(ctx)
 
 
 def replay(ctx, rec):
